@@ -130,4 +130,78 @@ def NestedConforms (C : Codecs) (typ : String) : Prop :=
 theorem NestedConforms.at {C : Codecs} {typ : String} (h : NestedConforms C typ) (v' : Tup) :
     NestedConformsAt C typ v' := fun v bs he sb hs => h v bs v' he sb hs
 
+/-! ### beyond the straight-line fragment: loops over list fields, one optional parameter field -/
+
+/-- the body of `if c.F != 0 { … }` emits exactly `F`, as one integer into the parameter block -/
+def optBody (f : String) : List MStmt → Bool
+  | [.int .P _ _ g] => f == g
+  | _ => false
+
+/-- the body of `if c.F != [n]T{0,…} { … }` emits exactly the array `F` into the parameter block -/
+def optBodyArr (f : String) : List MStmt → Bool
+  | [.forInt .P _ _ g] => f == g
+  | _ => false
+
+/-- statement shapes of the extended fragment, `opt` being the names emitted under "is non-zero": the
+    straight-line statements and the two `range` loops, none of which emits a name of `opt`; and
+    `if c.F != 0 { emit F }` for the names of `opt` (nothing else inside the condition).  No condition on
+    `WordCount`, nothing ahead of the parameter block. -/
+def extShape (opt : List String) : MStmt → Bool
+  | .ifNonZero f body => opt.contains f && optBody f body
+  | .ifNonZeroArr f body => opt.contains f && optBodyArr f body
+  | .ifWordCount _ _ | .subHead _ _ => false
+  | .int _ _ _ f | .quad _ _ _ f | .u8 _ f | .bytes _ f | .arr _ f | .sub _ f _ | .forSub _ f _
+  | .forInt _ _ _ f => !opt.contains f
+  | .setFmt _ _ | .assignLen _ _ _ => true
+
+/-- the field `f` is declared as an array of `w`-byte integers (MS-CIFS `USHORT[]` / `ULONG[]`, as
+    `Spec.Cifs.fieldEnc` reads the declared type) -/
+def arrTyped (c : Cmd) (w : Nat) (f : String) : Bool := (c.typeOf f).bind fieldEnc == some (.uintArr w)
+
+/-- `for _, x := range c.F { PutUint… }` only over a field declared as an array of integers of that
+    width (also inside `if c.F != [n]T{0,…}`) -/
+def typedLoop (c : Cmd) : MStmt → Bool
+  | .forInt _ w _ f => arrTyped c w f
+  | .ifNonZeroArr _ body => body.all (fun s => match s with | .forInt _ w _ f => arrTyped c w f | _ => true)
+  | _ => true
+
+/-- C05 static predicate for the structures whose `Marshal` loops over a list field: `Conforms` (the
+    per-statement checks of which cover the loops: `forInt` little-endian at the element width,
+    `forSub` of a field declared as a list of that structure), nothing but straight-line statements and
+    loops (`Spec.Cifs.loopsOnly`), integer loops over declared integer arrays (`typedLoop`).  Sound with
+    respect to `Spec.Cifs.encodeLists`: `conforms_lists_sound`. -/
+def ConformsLists (c : Cmd) : Bool := Conforms c && loopsOnly c.marshal && c.marshal.all (typedLoop c)
+
+/-- C05 static predicate for the structures with one optional parameter field (`OffsetHigh` of the
+    14-word WRITE_ANDX / WRITE_RAW requests, `Reserved` of the 12-word WRITE_AND_CLOSE): `Conforms`,
+    exactly one statement `if c.F != 0 { … }`, whose body emits `F` and nothing else, into the parameter
+    block; no other statement emits `F`; everything else straight-line or a loop (`extShape`, `typedLoop`).  Sound with respect
+    to `Spec.Cifs.encodeOptional`: `conforms_optional_sound`. -/
+def ConformsOptional (c : Cmd) : Bool :=
+  Conforms c && (optionalFields c.marshal).length == 1 && c.marshal.all (extShape (optionalFields c.marshal)) &&
+    c.marshal.all (typedLoop c)
+
+/-- why a command is in neither proved fragment beyond the straight-line one (for reporting) -/
+def extFailures (c : Cmd) : List String :=
+  (if c.marshal.any (fun s => match s with | .ifWordCount .. => true | _ => false) then
+    ["a field emitted under a condition on WordCount"] else []) ++
+  (if c.marshal.any (fun s => match s with | .subHead .. => true | _ => false) then
+    ["bytes ahead of the parameter block"] else []) ++
+  (if (optionalFields c.marshal).length > 1 then ["more than one optional field"] else []) ++
+  (if c.marshal.all (extShape (optionalFields c.marshal)) then [] else ["statement shape"]) ++
+  (if c.marshal.all (typedLoop c) then [] else ["integer loop over a field not declared as an integer array"]) ++
+  (if Conforms c then [] else conformsFailures c)
+
+/-- list elements: `for _, x := range c.F { x.Marshal() }` marshals a *copy*, so the command keeps the
+    element it had; the nested encoder of type `typ` has to agree with MS-CIFS on the value it is
+    handed (where `NestedConforms` speaks of the value `Marshal` leaves in a field) -/
+def NestedConformsIn (C : Codecs) (typ : String) : Prop :=
+  ∀ v bs v', C.enc typ v = .ok (bs, v') → ∀ sb, nestedEnc typ v = some sb → bs = sb
+
+/-- `NestedConforms` gives `NestedConformsIn` for a type whose MS-CIFS encoding does not distinguish a
+    value from what `Marshal` leaves of it (e.g. every type whose `Marshal` leaves its receiver alone) -/
+theorem NestedConforms.toIn {C : Codecs} {typ : String} (h : NestedConforms C typ)
+    (hst : ∀ v bs v', C.enc typ v = .ok (bs, v') → nestedEnc typ v = nestedEnc typ v') :
+    NestedConformsIn C typ := fun v bs v' he sb hs => h v bs v' he sb (hst v bs v' he ▸ hs)
+
 end Manticore.SmbIR
